@@ -87,6 +87,38 @@ def std_externals(it_holder: List[Interp]) -> Dict[str, object]:
         if default_factory is not None:
             return Obj(None, __default_factory__=default_factory)
         return default
+    def getmembers(obj, predicate=None):
+        """inspect.getmembers on a model instance: instance attributes plus class-level attributes and methods."""
+        from .interp import BoundMethod
+        it = it_holder[0]
+        names = {}
+        if isinstance(obj, Obj) or hasattr(obj, "attrs"):
+            for k, v in obj.attrs.items():
+                if not (k.startswith("__") and k.endswith("__")):
+                    names[k] = v
+            if obj.cls:
+                for c in it.prog.mro(obj.cls):
+                    ci = it.prog.classes.get(c)
+                    if ci is None:
+                        continue
+                    for m, fi in ci.methods.items():
+                        names.setdefault(m, BoundMethod(fi, obj))
+                    for a in ci.attrs:
+                        if a not in names:
+                            names[a] = it.getattr(obj, a, None)
+        out = []
+        for k in sorted(names):
+            v = names[k]
+            if predicate is None or predicate(v):
+                out.append((k, v))
+        return out
+
+    def isroutine(v):
+        from .interp import BoundMethod, Closure
+        from .program import FuncInfo
+        return isinstance(v, (BoundMethod, Closure, FuncInfo)) or (callable(v) and not isinstance(v, Obj))
+    ext["inspect.getmembers"] = getmembers
+    ext["inspect.isroutine"] = isroutine
     ext["field"] = dc_field
     ext["dataclasses.field"] = dc_field
     return ext
